@@ -5,12 +5,17 @@
 // =====================================================================================
 
 // ---------------------------------------------------------------- views of extracted handle types
+/// what a handle (strong, weak or type-erased) designates: the actor's identity and its two channels
+pub struct HandleView { pub id: Identity, pub mbx: int, pub ctl: int }
+
 impl<T: Actor> ActorRef<T> {
+    pub open spec fn hv(&self) -> HandleView { HandleView { id: self.id, mbx: self.sender.chan(), ctl: self.terminate_sender.chan() } }
     pub open spec fn mbx_chan(&self) -> int { self.sender.chan() }
     pub open spec fn ctl_chan(&self) -> int { self.terminate_sender.chan() }
     pub open spec fn identity_spec(&self) -> Identity { self.id }
 }
 impl<T: Actor> ActorWeak<T> {
+    pub open spec fn hv(&self) -> HandleView { HandleView { id: self.id, mbx: self.sender.chan(), ctl: self.terminate_sender.chan() } }
     pub open spec fn mbx_chan(&self) -> int { self.sender.chan() }
     pub open spec fn ctl_chan(&self) -> int { self.terminate_sender.chan() }
     pub open spec fn identity_spec(&self) -> Identity { self.id }
@@ -169,13 +174,13 @@ pub open spec fn dl_log<M>(l: Seq<Eff>, identity: Identity, reason: DeadLetterRe
 /// R_tell / R_blocking_tell (op = "tell" | "blocking_tell"): exactly one enqueue attempt on the one mailbox,
 /// waiting send (Await marker, never TryFull); Ok iff accepted; the envelope embeds a strong reference to this
 /// actor; exactly one dead letter (ActorStopped) iff rejected; Err is Send{identity = self.id}.
-pub open spec fn r_tell<T: Actor, M>(this: ActorRef<T>, pid: int, l0: Seq<Eff>, l1: Seq<Eff>, r: Result<()>, op: Seq<char>) -> bool {
-    let env = env_view(pid, None, this.mbx_chan());
+pub open spec fn r_tell<M>(this: HandleView, pid: int, l0: Seq<Eff>, l1: Seq<Eff>, r: Result<()>, op: Seq<char>) -> bool {
+    let env = env_view(pid, None, this.mbx);
     let pre = l0.push(Eff::Await(AwaitKind::Send));
     match r {
-        Ok(_) => l1 =~= pre.push(Eff::Enq(this.mbx_chan(), env)),
+        Ok(_) => l1 =~= pre.push(Eff::Enq(this.mbx, env)),
         Err(Error::Send { identity, .. }) => identity == this.id
-            && l1 =~= dl_log::<M>(pre.push(Eff::Rejected(this.mbx_chan(), env)), this.id, DeadLetterReason::ActorStopped, op),
+            && l1 =~= dl_log::<M>(pre.push(Eff::Rejected(this.mbx, env)), this.id, DeadLetterReason::ActorStopped, op),
         Err(_) => false,
     }
 }
@@ -183,13 +188,13 @@ pub open spec fn r_tell<T: Actor, M>(this: ActorRef<T>, pid: int, l0: Seq<Eff>, 
 /// R_tell_timeout(d): the tell relation with the timer resolution appended when the inner operation completed (its own
 /// outcome passes through unchanged, no extra dead letter); or Err(Timeout{self.id, d, "tell"}) with the log cut back to
 /// before the send suspended (nothing enqueued) plus exactly one Timeout dead letter.
-pub open spec fn r_tell_timeout<T: Actor, M>(this: ActorRef<T>, pid: int, d: Duration, l0: Seq<Eff>, l1: Seq<Eff>, r: Result<()>, op: Seq<char>) -> bool {
-    let env = env_view(pid, None, this.mbx_chan());
+pub open spec fn r_tell_timeout<M>(this: HandleView, pid: int, d: Duration, l0: Seq<Eff>, l1: Seq<Eff>, r: Result<()>, op: Seq<char>) -> bool {
+    let env = env_view(pid, None, this.mbx);
     let pre = l0.push(Eff::Await(AwaitKind::Send));
     match r {
-        Ok(_) => l1 =~= pre.push(Eff::Enq(this.mbx_chan(), env)).push(Eff::TimeoutArmed(d)),
+        Ok(_) => l1 =~= pre.push(Eff::Enq(this.mbx, env)).push(Eff::TimeoutArmed(d)),
         Err(Error::Send { identity, .. }) => identity == this.id
-            && l1 =~= dl_log::<M>(pre.push(Eff::Rejected(this.mbx_chan(), env)), this.id, DeadLetterReason::ActorStopped, op).push(Eff::TimeoutArmed(d)),
+            && l1 =~= dl_log::<M>(pre.push(Eff::Rejected(this.mbx, env)), this.id, DeadLetterReason::ActorStopped, op).push(Eff::TimeoutArmed(d)),
         Err(Error::Timeout { identity, timeout, operation }) => identity == this.id && timeout == d && operation@ == op
             && l1 =~= dl_log::<M>(l0.push(Eff::TimeoutArmed(d)), this.id, DeadLetterReason::Timeout, op),
         Err(_) => false,
@@ -201,20 +206,20 @@ pub open spec fn req_at(l: Seq<Eff>, i: int) -> int {
 }
 
 /// the ask-side log up to and including the send attempt
-pub open spec fn ask_sent<T: Actor>(this: ActorRef<T>, pid: int, q: int, l0: Seq<Eff>) -> Seq<Eff> {
-    l0.push(Eff::NewReq(q)).push(Eff::Await(AwaitKind::Send)).push(Eff::Enq(this.mbx_chan(), env_view(pid, Some(q), this.mbx_chan())))
+pub open spec fn ask_sent(this: HandleView, pid: int, q: int, l0: Seq<Eff>) -> Seq<Eff> {
+    l0.push(Eff::NewReq(q)).push(Eff::Await(AwaitKind::Send)).push(Eff::Enq(this.mbx, env_view(pid, Some(q), this.mbx)))
 }
 
 /// R_ask / R_blocking_ask (without deadlock-detection bookkeeping): a fresh request id, one enqueue attempt, then one wait on
 /// *that* request; Ok(v) only with the value received on it; Receive only when the reply sender was dropped; dead letters
 /// exactly on Send (ActorStopped) and Receive (ReplyDropped).
-pub open spec fn r_ask_core<T: Actor, M, R>(this: ActorRef<T>, pid: int, l0: Seq<Eff>, l1: Seq<Eff>, r: Result<R>, op: Seq<char>) -> bool {
+pub open spec fn r_ask_core<M, R>(this: HandleView, pid: int, l0: Seq<Eff>, l1: Seq<Eff>, r: Result<R>, op: Seq<char>) -> bool {
     let q = req_at(l1, l0.len() as int);
     let sent = ask_sent(this, pid, q, l0);
     match r {
         Ok(v) => l1 =~= sent.push(Eff::Await(AwaitKind::Reply)).push(Eff::ReplyRecv(q, val_id(v))),
         Err(Error::Send { identity, .. }) => identity == this.id
-            && l1 =~= dl_log::<M>(l0.push(Eff::NewReq(q)).push(Eff::Await(AwaitKind::Send)).push(Eff::Rejected(this.mbx_chan(), env_view(pid, Some(q), this.mbx_chan()))),
+            && l1 =~= dl_log::<M>(l0.push(Eff::NewReq(q)).push(Eff::Await(AwaitKind::Send)).push(Eff::Rejected(this.mbx, env_view(pid, Some(q), this.mbx))),
                                  this.id, DeadLetterReason::ActorStopped, op),
         Err(Error::Receive { identity, .. }) => identity == this.id
             && l1 =~= dl_log::<M>(sent.push(Eff::Await(AwaitKind::Reply)).push(Eff::ReplyClosed(q)), this.id, DeadLetterReason::ReplyDropped, op),
@@ -226,26 +231,26 @@ pub open spec fn r_ask_core<T: Actor, M, R>(this: ActorRef<T>, pid: int, l0: Seq
 
 /// R_kill: never suspends (no Await), exactly one try_send of Terminate on the *control* channel, no mailbox effect,
 /// Ok for Ok / Full / Closed.
-pub open spec fn r_kill<T: Actor>(this: ActorRef<T>, l0: Seq<Eff>, l1: Seq<Eff>, r: Result<()>) -> bool {
-    r is Ok && (l1 =~= l0.push(Eff::Enq(this.ctl_chan(), MsgView::Signal))
-             || l1 =~= l0.push(Eff::TryFull(this.ctl_chan(), MsgView::Signal))
-             || l1 =~= l0.push(Eff::Rejected(this.ctl_chan(), MsgView::Signal)))
+pub open spec fn r_kill(this: HandleView, l0: Seq<Eff>, l1: Seq<Eff>, r: Result<()>) -> bool {
+    r is Ok && (l1 =~= l0.push(Eff::Enq(this.ctl, MsgView::Signal))
+             || l1 =~= l0.push(Eff::TryFull(this.ctl, MsgView::Signal))
+             || l1 =~= l0.push(Eff::Rejected(this.ctl, MsgView::Signal)))
 }
 
 /// R_stop: exactly one waiting enqueue attempt of the in-band stop marker (which embeds a strong reference) on the one
 /// mailbox; Ok in both outcomes; no dead letter.
-pub open spec fn r_stop<T: Actor>(this: ActorRef<T>, l0: Seq<Eff>, l1: Seq<Eff>, r: Result<()>) -> bool {
+pub open spec fn r_stop(this: HandleView, l0: Seq<Eff>, l1: Seq<Eff>, r: Result<()>) -> bool {
     let pre = l0.push(Eff::Await(AwaitKind::Send));
-    r is Ok && (l1 =~= pre.push(Eff::Enq(this.mbx_chan(), MsgView::StopMark { holds: this.mbx_chan() }))
-             || l1 =~= pre.push(Eff::Rejected(this.mbx_chan(), MsgView::StopMark { holds: this.mbx_chan() })))
+    r is Ok && (l1 =~= pre.push(Eff::Enq(this.mbx, MsgView::StopMark { holds: this.mbx }))
+             || l1 =~= pre.push(Eff::Rejected(this.mbx, MsgView::StopMark { holds: this.mbx })))
 }
 
 /// is_alive: both channels read, alive iff neither is closed (short-circuit: the control channel is read only if the
 /// mailbox is open)
-pub open spec fn r_is_alive<T: Actor>(this: ActorRef<T>, l0: Seq<Eff>, l1: Seq<Eff>, r: bool) -> bool {
+pub open spec fn r_is_alive(this: HandleView, l0: Seq<Eff>, l1: Seq<Eff>, r: bool) -> bool {
     let b = last_bool(l1);
-    (l1 =~= l0.push(Eff::ReadClosed(this.mbx_chan(), true)) && !r)
-    || (l1 =~= l0.push(Eff::ReadClosed(this.mbx_chan(), false)).push(Eff::ReadClosed(this.ctl_chan(), b)) && r == !b)
+    (l1 =~= l0.push(Eff::ReadClosed(this.mbx, true)) && !r)
+    || (l1 =~= l0.push(Eff::ReadClosed(this.mbx, false)).push(Eff::ReadClosed(this.ctl, b)) && r == !b)
 }
 pub open spec fn last_bool(l: Seq<Eff>) -> bool {
     if l.len() == 0 { false } else { match l.last() { Eff::ReadClosed(_, b) => b, Eff::ReadStrong(_, b) => b, Eff::Upgrade(_, b) => b, _ => false } }
@@ -273,15 +278,15 @@ pub open spec fn same_ambient_but_dl(w0: World, w1: World) -> bool {
 }
 
 #[cfg(not(feature = "deadlock-detection"))]
-pub open spec fn r_ask<T: Actor, M, R>(this: ActorRef<T>, pid: int, w0: World, w1: World, r: Result<R>, op: Seq<char>) -> bool {
-    r_ask_core::<T, M, R>(this, pid, w0.log(), w1.log(), r, op)
+pub open spec fn r_ask<M, R>(this: HandleView, pid: int, w0: World, w1: World, r: Result<R>, op: Seq<char>) -> bool {
+    r_ask_core::<M, R>(this, pid, w0.log(), w1.log(), r, op)
 }
 
 /// R_ask_timeout(d): the inner ask outcome passes through unchanged (timer resolution appended), or Err(Timeout{self.id, d, op})
 /// with the log cut at one of ask's two suspension points — before the send completed (nothing enqueued) or while waiting for
 /// the reply — plus exactly one Timeout dead letter.
 #[cfg(not(feature = "deadlock-detection"))]
-pub open spec fn r_ask_timeout<T: Actor, M, R>(this: ActorRef<T>, pid: int, d: Duration, w0: World, w1: World, r: Result<R>, op: Seq<char>) -> bool {
+pub open spec fn r_ask_timeout<M, R>(this: HandleView, pid: int, d: Duration, w0: World, w1: World, r: Result<R>, op: Seq<char>) -> bool {
     let l0 = w0.log();
     let l1 = w1.log();
     let q = req_at(l1, l0.len() as int);
@@ -289,40 +294,40 @@ pub open spec fn r_ask_timeout<T: Actor, M, R>(this: ActorRef<T>, pid: int, d: D
         Err(Error::Timeout { identity, timeout, operation }) => identity == this.id && timeout == d && operation@ == op
             && (l1 =~= dl_log::<M>(l0.push(Eff::NewReq(q)).push(Eff::TimeoutArmed(d)), this.id, DeadLetterReason::Timeout, op)
                 || l1 =~= dl_log::<M>(ask_sent(this, pid, q, l0).push(Eff::TimeoutArmed(d)), this.id, DeadLetterReason::Timeout, op)),
-        _ => l1.len() > 0 && l1.last() == Eff::TimeoutArmed(d) && r_ask_core::<T, M, R>(this, pid, l0, l1.drop_last(), r, op),
+        _ => l1.len() > 0 && l1.last() == Eff::TimeoutArmed(d) && r_ask_core::<M, R>(this, pid, l0, l1.drop_last(), r, op),
     }
 }
 
 /// R_ask_join: an ask whose reply is a JoinHandle, then exactly one wait on *that* handle; the task's output is returned,
 /// a JoinError is reported as Error::Join{identity: self.id, source: that error}; ask errors pass through.
-pub open spec fn r_ask_join<T: Actor, M, R>(this: ActorRef<T>, pid: int, w0: World, w1: World, r: Result<R>) -> bool {
+pub open spec fn r_ask_join<M, R>(this: HandleView, pid: int, w0: World, w1: World, r: Result<R>) -> bool {
     let l1 = w1.log();
     match r {
         Ok(v) => l1.len() >= 2 && (l1.last() matches Eff::Joined(t, true) && val_id(v) == join_output(t)
                     && l1[l1.len() - 2] == Eff::Await(AwaitKind::Join)
-                    && ask_ok_with_handle::<T, M, R>(this, pid, w0, l1.drop_last().drop_last(), t)),
+                    && ask_ok_with_handle::<M, R>(this, pid, w0, l1.drop_last().drop_last(), t)),
         Err(Error::Join { identity, source }) => identity == this.id && l1.len() >= 2
                     && (l1.last() matches Eff::Joined(t, false) && join_error_id(source) == t
                     && l1[l1.len() - 2] == Eff::Await(AwaitKind::Join)
-                    && ask_ok_with_handle::<T, M, R>(this, pid, w0, l1.drop_last().drop_last(), t)),
-        Err(e) => exists|w_mid: World| w_mid.log() == l1 && #[trigger] r_ask::<T, M, JoinHandle<R>>(this, pid, w0, w_mid, Err(e), "ask"@),
+                    && ask_ok_with_handle::<M, R>(this, pid, w0, l1.drop_last().drop_last(), t)),
+        Err(e) => exists|w_mid: World| w_mid.log() == l1 && #[trigger] r_ask::<M, JoinHandle<R>>(this, pid, w0, w_mid, Err(e), "ask"@),
     }
 }
-pub open spec fn ask_ok_with_handle<T: Actor, M, R>(this: ActorRef<T>, pid: int, w0: World, l: Seq<Eff>, task: int) -> bool {
+pub open spec fn ask_ok_with_handle<M, R>(this: HandleView, pid: int, w0: World, l: Seq<Eff>, task: int) -> bool {
     exists|h: JoinHandle<R>, w_mid: World| w_mid.log() =~= l && h.task() == task
-        && #[trigger] r_ask::<T, M, JoinHandle<R>>(this, pid, w0, w_mid, Ok(h), "ask"@)
+        && #[trigger] r_ask::<M, JoinHandle<R>>(this, pid, w0, w_mid, Ok(h), "ask"@)
 }
 
 // ---------------------------------------------------------------- weak handles
-pub open spec fn r_upgrade<T: Actor>(this: ActorWeak<T>, l0: Seq<Eff>, l1: Seq<Eff>, some: bool) -> bool {
+pub open spec fn r_upgrade(this: HandleView, l0: Seq<Eff>, l1: Seq<Eff>, some: bool) -> bool {
     let b = last_bool(l1);
-    (l1 =~= l0.push(Eff::Upgrade(this.mbx_chan(), false)) && !some)
-    || (l1 =~= l0.push(Eff::Upgrade(this.mbx_chan(), true)).push(Eff::Upgrade(this.ctl_chan(), b)) && some == b)
+    (l1 =~= l0.push(Eff::Upgrade(this.mbx, false)) && !some)
+    || (l1 =~= l0.push(Eff::Upgrade(this.mbx, true)).push(Eff::Upgrade(this.ctl, b)) && some == b)
 }
-pub open spec fn r_weak_alive<T: Actor>(this: ActorWeak<T>, l0: Seq<Eff>, l1: Seq<Eff>, r: bool) -> bool {
+pub open spec fn r_weak_alive(this: HandleView, l0: Seq<Eff>, l1: Seq<Eff>, r: bool) -> bool {
     let b = last_bool(l1);
-    (l1 =~= l0.push(Eff::ReadStrong(this.mbx_chan(), false)) && !r)
-    || (l1 =~= l0.push(Eff::ReadStrong(this.mbx_chan(), true)).push(Eff::ReadStrong(this.ctl_chan(), b)) && r == b)
+    (l1 =~= l0.push(Eff::ReadStrong(this.mbx, false)) && !r)
+    || (l1 =~= l0.push(Eff::ReadStrong(this.mbx, true)).push(Eff::ReadStrong(this.ctl, b)) && r == b)
 }
 
 // ---------------------------------------------------------------- spawn
@@ -332,9 +337,9 @@ pub open spec fn default_capacity(w: World) -> usize {
 /// exactly: one id allocation, a mailbox of exactly `cap`, a control channel of exactly 1, one lifecycle task on those
 /// receivers with the caller's args
 #[cfg(not(feature = "metrics"))]
-pub open spec fn spawn_tail<T: Actor>(base: Seq<Eff>, r: ActorRef<T>, cap: usize, args_id: int) -> Seq<Eff> {
+pub open spec fn spawn_tail(base: Seq<Eff>, r: HandleView, cap: usize, args_id: int) -> Seq<Eff> {
     base.push(Eff::FetchAdd(cell_ACTOR_IDS(), 1))
-        .push(Eff::NewChan(r.mbx_chan(), cap as nat))
-        .push(Eff::NewChan(r.ctl_chan(), 1))
-        .push(Eff::Spawned(r.mbx_chan(), r.ctl_chan(), args_id))
+        .push(Eff::NewChan(r.mbx, cap as nat))
+        .push(Eff::NewChan(r.ctl, 1))
+        .push(Eff::Spawned(r.mbx, r.ctl, args_id))
 }
